@@ -393,4 +393,296 @@ theorem fact_clause_layout (t : Rep) (cs : List Clause)
   subst hcomp
   exact ⟨_, rfl, by simp [hcode], rfl, hn (by simp), rfl, rfl⟩
 
+theorem seqGoals_ne_nil (b : Rep) : seqGoals b ≠ [] := by
+  fun_induction seqGoals b with
+  | case1 a b iha ih => simp [iha]
+  | case2 g hne => simp
+
+/-! ### the activation theorems
+
+  In all three: `N = m.user.nextVar` is the counter before the call, `L = c.vars.length`,
+  `vars = freshL N L` the activation's variables, `ρ = renOf c.vars vars` the renaming,
+  `H' = (the head arguments).map (rename ρ)`.  `MGUStep (N + L) env E N' env'` is the conclusion of
+  (A) as a structure: fields `le`, `iff`, `det`, `below`. -/
+
+/-- **(C, fact)** a fact `t`, compiled and called on `args` under `env`: one fresh variable per
+    table entry is drawn; then either the call fails and the renamed head does not unify with
+    `args` under `env`, or the continuation `k` of the call is applied to `env'` = `env` + mgu -/
+theorem activation_fact (t : Rep) (cs : List Clause)
+    (hw : WF t = true) (hc : CallableHead t = true)
+    (hne : ∀ h b, t ≠ .compound ":-" (.cons h (.cons b .nil)))
+    (hcomp : compile t = .ok cs) (c : Clause) (hmem : c ∈ cs)
+    (fuel : Nat) (args : List Term) (k : Cont) (env : Env) (parent : Nat) (m : MS) (res : Pr × MS)
+    (hlen : args.length = c.arity)
+    (hargsB : ∀ a ∈ args, TBelow m.user.nextVar a) (henv : SolBelow m.user.nextVar env)
+    (hrun : evalThunk fuel (.clause c args k env parent) m = some res) :
+    (∃ N', m.user.nextVar + c.vars.length ≤ N' ∧ res = (failP, bump m N') ∧
+      ¬ ∃ θ, Sol env θ ∧ UnifiesL θ args ((Rep.absArgs (headArgs t)).toList.map
+        (Term.rename (renOf c.vars (freshL m.user.nextVar c.vars.length))))) ∨
+    (∃ fuel' env' N', fuel' < fuel ∧ applyCont fuel' k env' (bump m N') = some res ∧
+      MGUStep (m.user.nextVar + c.vars.length) env
+        (fun θ => UnifiesL θ args ((Rep.absArgs (headArgs t)).toList.map
+          (Term.rename (renOf c.vars (freshL m.user.nextVar c.vars.length))))) N' env') := by
+  obtain ⟨c', rfl, hcode, hvars, hnd, _, har⟩ := fact_clause_layout t _ hw hc hne hcomp
+  simp only [List.mem_singleton] at hmem
+  subst hmem
+  rcases activation_head c (headArgs t) [.exit] (wfs_headArgs t hw) hcode (by rw [hvars]; exact List.prefix_refl _) hnd
+      fuel args k env parent m res (by rw [hlen, har]) hargsB henv hrun with
+    hfail | ⟨fuel', env', N', hfu, hx, hs⟩
+  · exact Or.inl hfail
+  · cases fuel' with
+    | zero => simp [exec_zero] at hx
+    | succ f =>
+      rw [body_done] at hx
+      exact Or.inr ⟨f, env', N', by omega, hx, hs⟩
+
+/-- **(C, rule)** the `i`-th clause of a rule (one clause per top-level disjunct `alt` of the body),
+    called on `args` under `env`: fresh variables are drawn; then either the call fails and the
+    renamed head does not unify with `args` under `env`, or the body code (`enter`, the goals'
+    segments `bops` in order — `BodySem` —, `exit`) runs with empty registers under `env'` =
+    `env` + mgu, with the activation's variables, `parent` as the cut parent and `k` as the
+    continuation of the clause -/
+theorem activation_rule (head body : Rep) (cs : List Clause)
+    (hwh : WF head = true) (hwb : WF body = true) (hch : CallableHead head = true)
+    (hcomp : compile (.compound ":-" (.cons head (.cons body .nil))) = .ok cs)
+    (i : Nat) (c : Clause) (alt : Rep) (hc : cs[i]? = some c) (ha : (altBodies body)[i]? = some alt) :
+    ∃ bops, c.code = headCode (headArgs head) {} ++ Op.enter :: (bops ++ [Op.exit]) ∧
+      BodySem c.vars bops (seqGoals alt) ∧
+      ∀ (fuel : Nat) (args : List Term) (k : Cont) (env : Env) (parent : Nat) (m : MS) (res : Pr × MS),
+      args.length = c.arity →
+      (∀ a ∈ args, TBelow m.user.nextVar a) → SolBelow m.user.nextVar env →
+      evalThunk fuel (.clause c args k env parent) m = some res →
+      (∃ N', m.user.nextVar + c.vars.length ≤ N' ∧ res = (failP, bump m N') ∧
+        ¬ ∃ θ, Sol env θ ∧ UnifiesL θ args ((Rep.absArgs (headArgs head)).toList.map
+          (Term.rename (renOf c.vars (freshL m.user.nextVar c.vars.length))))) ∨
+      (∃ fuel' env' N', fuel' < fuel ∧
+        exec fuel' (Op.enter :: (bops ++ [Op.exit])) (freshL m.user.nextVar c.vars.length) k [] []
+          env' parent (bump m N') = some res ∧
+        MGUStep (m.user.nextVar + c.vars.length) env
+          (fun θ => UnifiesL θ args ((Rep.absArgs (headArgs head)).toList.map
+            (Term.rename (renOf c.vars (freshL m.user.nextVar c.vars.length))))) N' env') := by
+  obtain ⟨bops, hcode, hsem, hpre, hnd, _, har⟩ :=
+    rule_clause_layout head body cs hwh hwb hch hcomp i c alt hc ha
+  refine ⟨bops, hcode, hsem, ?_⟩
+  intro fuel args k env parent m res hlen hargsB henv hrun
+  exact activation_head c (headArgs head) _ (wfs_headArgs head hwh) hcode hpre hnd
+    fuel args k env parent m res (by rw [hlen, har]) hargsB henv hrun
+
+/-- **(C) + (B): HEAD UNIFICATION, THEN THE FIRST BODY GOAL.**  The body of a rule clause has a first
+    goal `g` (and further goals `gs`, whose code + `exit` is `rest`).  A finished activation either
+    fails in the head (no unifier), or — under `env'` = `env` + mgu, the machine state changed only
+    in the variable counter —
+    * `g` is `!`: the result is the cut promise: cut back to `parent`, then go on with `rest`;
+    * otherwise: the result is that of `arrive` at the renamed goal `(goalTerm g).rename ρ`, with the
+      continuation `.exec rest vars parent k`: the rest of the clause, the activation's variables,
+      the activation's cut parent `parent`, the clause's continuation `k`. -/
+theorem activation_rule_first_goal (head body : Rep) (cs : List Clause)
+    (hwh : WF head = true) (hwb : WF body = true) (hch : CallableHead head = true)
+    (hcomp : compile (.compound ":-" (.cons head (.cons body .nil))) = .ok cs)
+    (i : Nat) (c : Clause) (alt : Rep) (hc : cs[i]? = some c) (ha : (altBodies body)[i]? = some alt) :
+    ∃ g gs rest, seqGoals alt = g :: gs ∧ (∃ ops', rest = ops' ++ [Op.exit] ∧ BodySem c.vars ops' gs) ∧
+      ∀ (fuel : Nat) (args : List Term) (k : Cont) (env : Env) (parent : Nat) (m : MS) (res : Pr × MS),
+      args.length = c.arity →
+      (∀ a ∈ args, TBelow m.user.nextVar a) → SolBelow m.user.nextVar env →
+      evalThunk fuel (.clause c args k env parent) m = some res →
+      (∃ N', m.user.nextVar + c.vars.length ≤ N' ∧ res = (failP, bump m N') ∧
+        ¬ ∃ θ, Sol env θ ∧ UnifiesL θ args ((Rep.absArgs (headArgs head)).toList.map
+          (Term.rename (renOf c.vars (freshL m.user.nextVar c.vars.length))))) ∨
+      (∃ env' N',
+        MGUStep (m.user.nextVar + c.vars.length) env
+          (fun θ => UnifiesL θ args ((Rep.absArgs (headArgs head)).toList.map
+            (Term.rename (renOf c.vars (freshL m.user.nextVar c.vars.length))))) N' env' ∧
+        (g = .atom "!" →
+          res = ({ delayed := [.afterCut rest (freshL m.user.nextVar c.vars.length) k [] [] env' parent],
+                   cutParent := some parent }, bump m N')) ∧
+        (g ≠ .atom "!" → ∃ fuel', fuel' < fuel ∧
+          arrive fuel'
+            (functorName ((goalTerm g).rename (renOf c.vars (freshL m.user.nextVar c.vars.length))))
+            (argList ((goalTerm g).rename (renOf c.vars (freshL m.user.nextVar c.vars.length))))
+            (.exec rest (freshL m.user.nextVar c.vars.length) parent k) env' (bump m N') = some res)) := by
+  obtain ⟨bops, hcode, hsem, hpre, hnd, _, har⟩ :=
+    rule_clause_layout head body cs hwh hwb hch hcomp i c alt hc ha
+  obtain ⟨g, gs, hgs⟩ : ∃ g gs, seqGoals alt = g :: gs := by
+    cases h : seqGoals alt with
+    | nil => exact absurd h (seqGoals_ne_nil alt)
+    | cons g gs => exact ⟨g, gs, rfl⟩
+  rw [hgs] at hsem
+  obtain ⟨seg, ops', rfl, _, hb', hcutc, hcallc⟩ := enter_first_goal hsem
+  refine ⟨g, gs, ops' ++ [.exit], hgs, ⟨ops', rfl, hb'⟩, ?_⟩
+  intro fuel args k env parent m res hlen hargsB henv hrun
+  rcases activation_head c (headArgs head) _ (wfs_headArgs head hwh) hcode hpre hnd
+      fuel args k env parent m res (by rw [hlen, har]) hargsB henv hrun with
+    hfail | ⟨fuel', env', N', hfu, hx, hs⟩
+  · exact Or.inl hfail
+  · refine Or.inr ⟨env', N', hs, ?_, ?_⟩
+    · intro hcut
+      exact hcutc hcut _ fuel' [.exit] k env' parent _ res hx
+    · intro hne
+      have hren : Renames c.vars (freshL m.user.nextVar c.vars.length)
+          (renOf c.vars (freshL m.user.nextVar c.vars.length)) := renames_renOf hnd (by simp)
+      obtain ⟨f', hf', harr⟩ := hcallc hne _ _ hren fuel' [.exit] k env' parent _ res hx
+      exact ⟨f', by omega, harr⟩
+
+/-! # non-vacuity: the theorems instantiated on
+    `p(f(X,Y), [X|T], "ab", Z, Z) :- q(Y, T), !, r(Z).`      (X=0, Y=1, T=2, Z=3)
+    called as `p(f(a,V7), [V8,c], [a|V9], V9, [b])` in the empty environment -/
+namespace Example
+
+def hargsEx : RepList :=
+  .cons (.compound "f" (.cons (.var 0) (.cons (.var 1) .nil)))
+  (.cons (.part (.list (.cons (.var 0) .nil)) (.var 2))
+  (.cons (.charList ['a', 'b'])
+  (.cons (.var 3) (.cons (.var 3) .nil))))
+
+def headEx : Rep := .compound "p" hargsEx
+def qEx : Rep := .compound "q" (.cons (.var 1) (.cons (.var 2) .nil))
+def rEx : Rep := .compound "r" (.cons (.var 3) .nil)
+def bodyEx : Rep := .compound "," (.cons qEx (.cons (.compound "," (.cons (.atom "!") (.cons rEx .nil))) .nil))
+def ruleEx : Rep := .compound ":-" (.cons headEx (.cons bodyEx .nil))
+
+/-- machine state in which four activation variables 1000000 … 1000003 have just been drawn -/
+def mEx : MS := bump { user := {} } 1000004
+def varsEx : List Nat := freshL 1000000 4
+def argsEx : List Term :=
+  [.app "f" (.cons (.atom "a") (.cons (.var 7) .nil)), Term.list [.var 8, .atom "c"],
+   Term.list [.atom "a"] (.var 9), .var 9, Term.list [.atom "b"]]
+
+theorem mEx_next : mEx.user.nextVar = 1000004 := rfl
+
+macro "vm_norm" : tactic => `(tactic|
+  simp only [mEx_next, bump_nextVar, bump_bump, freshL_succ, freshL_zero, List.map_cons, List.map_nil,
+    Nat.reduceAdd])
+
+theorem hcodeEx : headCode hargsEx {} =
+    [.getFunctor "f" 2, .getVar 0, .getVar 1, .pop, .getPartial 1, .getVar 2, .getVar 0, .pop,
+     .getConst (Term.list [.atom "a", .atom "b"]), .getVar 3, .getVar 3] := by decide +kernel
+
+/-- the head code runs to the end on these arguments (all nine unifications succeed) -/
+theorem head_runs (n : Nat) (rest : List Op) (k : Cont) (cp : Nat) :
+    ∃ env' : Env, exec (n + 11) (headCode hargsEx {} ++ rest) varsEx k argsEx [] [] cp mEx =
+      exec n rest varsEx k [] [] env' cp (bump mEx 1000008) := by
+  constructor
+  rw [hcodeEx]
+  simp only [List.cons_append, List.nil_append, argsEx]
+  rw [exec_getFunctor, unifyThen_ok (by decide +kernel)]
+  vm_norm
+  rw [exec_getVar' (h := by decide), unifyThen_ok (by decide +kernel)]
+  rw [exec_getVar' (h := by decide), unifyThen_ok (by decide +kernel)]
+  rw [exec_pop_get]
+  rw [exec_getPartial, unifyThen_ok (by decide +kernel)]
+  vm_norm
+  rw [exec_getVar' (h := by decide), unifyThen_ok (by decide +kernel)]
+  rw [exec_getVar' (h := by decide), unifyThen_ok (by decide +kernel)]
+  rw [exec_pop_get]
+  rw [exec_getConst, unifyThen_ok (by decide +kernel)]
+  rw [exec_getVar' (h := by decide), unifyThen_ok (by decide +kernel)]
+  rw [exec_getVar' (h := by decide), unifyThen_ok (by decide +kernel)]
+
+theorem hrunA : ∃ res, exec 13 (headCode hargsEx {} ++ [.exit]) varsEx .done argsEx [] [] 0 mEx = some res := by
+  obtain ⟨env', h⟩ := head_runs 2 [.exit] .done 0
+  exact ⟨_, by rw [h, exec_exit, applyCont]⟩
+
+theorem hrenEx : Renames (compileHeadArgs hargsEx {}).vars varsEx
+    (renOf (compileHeadArgs hargsEx {}).vars varsEx) :=
+  renames_renOf (by decide +kernel) (by decide +kernel)
+
+theorem hargsBEx : ∀ a ∈ argsEx, TBelow mEx.user.nextVar a := tbelow_of_check (by decide +kernel)
+
+/-- (A) instantiated: every hypothesis of `head_is_mgu` holds -/
+example := head_is_mgu hargsEx {} (by decide) varsEx _ hrenEx 13 [.exit] .done argsEx [] 0 mEx _
+  (by decide) (by decide +kernel) hargsBEx (SolBelow.nil _) hrunA.choose_spec
+
+/-- the renamed head arguments of the example: `f(V0,V1), [V0|V2], "ab", V3, V3` over the activation variables -/
+example : (Rep.absArgs hargsEx).toList.map (Term.rename (renOf (compileHeadArgs hargsEx {}).vars varsEx)) =
+    [.app "f" (.cons (.var 1000000) (.cons (.var 1000001) .nil)),
+     Term.list [.var 1000000] (.var 1000002), Term.list [.atom "a", .atom "b"],
+     .var 1000003, .var 1000003] := by decide +kernel
+
+/-- (A), failure branch: `p(g, …)` clashes at get_functor -/
+example : exec 12 (headCode hargsEx {} ++ [.exit]) varsEx .done
+    (.atom "g" :: argsEx.drop 1) [] [] 0 mEx = some (failP, bump mEx 1000006) := by
+  rw [hcodeEx]
+  simp only [List.cons_append, argsEx, List.drop_succ_cons, List.drop_zero]
+  rw [exec_getFunctor, unifyThen_clash (by decide +kernel)]
+  rfl
+
+/-! (B): the goal `q(Y, T)` compiled after the head -/
+
+def cHeadEx : CState := compileHeadArgs hargsEx {}
+def cGoalEx : CState := emit (compileBodyArgs (.cons (.var 1) (.cons (.var 2) .nil)) cHeadEx) (.call "q" 2)
+
+theorem hrenGoalEx : Renames cGoalEx.vars varsEx (renOf cGoalEx.vars varsEx) :=
+  renames_renOf (by decide +kernel) (by decide +kernel)
+
+/-- (B) instantiated -/
+example (fuel : Nat) (rest : List Op) (k : Cont) (env : Env) (cp : Nat) (m : MS) :=
+  body_goal_call qEx cHeadEx cGoalEx (by decide) rfl (by decide) varsEx _ hrenGoalEx fuel rest k env cp m
+
+/-- … its code and the goal it arrives at: `q(V1, V2)` over the activation variables -/
+example : goalCode qEx cHeadEx = [.putVar 1, .putVar 2, .call "q" 2] ∧
+    functorName ((goalTerm qEx).rename (renOf cGoalEx.vars varsEx)) = "q" ∧
+    argList ((goalTerm qEx).rename (renOf cGoalEx.vars varsEx)) = [.var 1000001, .var 1000002] := by
+  decide +kernel
+
+/-! (C): the rule and the fact -/
+
+def clauseEx : Clause :=
+  { name := "p", arity := 5, raw := Rep.abs ruleEx, vars := [0, 1, 2, 3],
+    code := headCode hargsEx {} ++ [.enter, .putVar 1, .putVar 2, .call "q" 2, .cut, .putVar 3, .call "r" 1, .exit] }
+
+theorem hcompEx : compile ruleEx = .ok [clauseEx] := by rfl
+
+def m0 : MS := bump { user := {} } 1000000
+
+theorem builtin_q (n : Nat) (a b : Term) (k : Cont) (env : Env) (m : MS) :
+    builtin (n + 1) "q" [a, b] k env m = none := by
+  rw [builtin]
+  all_goals simp
+
+/-- the activation of the rule runs: head, `enter`, the arguments of `q`, `call q/2` (unknown procedure here) -/
+theorem hrunC : ∃ res, evalThunk 20 (.clause clauseEx argsEx .done [] 7) m0 = some res := by
+  have e : bump m0 (m0.user.nextVar + clauseEx.vars.length) = mEx := rfl
+  have ev : freshL m0.user.nextVar clauseEx.vars.length = varsEx := rfl
+  rw [evalThunk_clause, e, ev]
+  obtain ⟨env', h⟩ := head_runs 8 [.enter, .putVar 1, .putVar 2, .call "q" 2, .cut, .putVar 3, .call "r" 1, .exit] .done 7
+  constructor
+  show exec (8 + 11) _ _ _ _ _ _ _ _ = _
+  rw [show clauseEx.code = headCode hargsEx {} ++ [.enter, .putVar 1, .putVar 2, .call "q" 2, .cut, .putVar 3, .call "r" 1, .exit] from rfl, h]
+  rw [exec_enter, exec_putVar (v := 1000001) (hv := by decide +kernel),
+    exec_putVar (v := 1000002) (hv := by decide +kernel)]
+  simp only [List.nil_append, List.singleton_append]
+  rw [exec_call, arrive, builtin_q]
+  rfl
+
+/-- (C) instantiated: every hypothesis of `activation_rule_first_goal` holds -/
+example : True := by
+  obtain ⟨g, gs, rest, _, _, hact⟩ := activation_rule_first_goal headEx bodyEx [clauseEx]
+    (by decide) (by decide) (by decide) hcompEx 0 clauseEx bodyEx rfl rfl
+  have := hact 20 argsEx .done [] 7 m0 _ (by decide) (tbelow_of_check (by decide +kernel))
+    (SolBelow.nil _) hrunC.choose_spec
+  trivial
+
+/-- the fact `p(f(X,Y), [X|T], "ab", Z, Z).` -/
+def factEx : Clause :=
+  { name := "p", arity := 5, raw := Rep.abs headEx, vars := [0, 1, 2, 3],
+    code := headCode hargsEx {} ++ [.exit] }
+
+theorem hcompFactEx : compile headEx = .ok [factEx] := by rfl
+
+theorem hrunFact : ∃ res, evalThunk 14 (.clause factEx argsEx .done [] 7) m0 = some res := by
+  have e : bump m0 (m0.user.nextVar + factEx.vars.length) = mEx := rfl
+  have ev : freshL m0.user.nextVar factEx.vars.length = varsEx := rfl
+  rw [evalThunk_clause, e, ev]
+  obtain ⟨env', h⟩ := head_runs 2 [.exit] .done 7
+  exact ⟨_, by
+    show exec (2 + 11) _ _ _ _ _ _ _ _ = _
+    rw [show factEx.code = headCode hargsEx {} ++ [.exit] from rfl, h, exec_exit, applyCont]⟩
+
+/-- (C, fact) instantiated -/
+example := activation_fact headEx [factEx] (by decide) (by decide) (by simp [headEx]) hcompFactEx
+  factEx (by simp) 14 argsEx .done [] 7 m0 _ (by decide) (tbelow_of_check (by decide +kernel))
+  (SolBelow.nil _) hrunFact.choose_spec
+
+end Example
+
 end PrologVerif.Activation
